@@ -417,6 +417,23 @@ def run(out, tier, scratch):
         r = add_run(cfg, tree, f"random:n={n}")
         judge(cfg, tree, r, f"random case {i}")
 
+    # every bracketing of 3-4 partitions mixing tiny (< min_write_sz) and large partitions: interactions of
+    # lhs_keep, left_data accumulation and credits depend on the bracketing, not only on the sizes
+    for i in range(40 if tier == "quick" else 400):
+        n = rng.choice([3, 3, 4])
+        cfg = rand_cfg(rng, n)
+        mw = cfg["minw"]
+        ll = []
+        for _ in range(n):
+            if rng.random() < 0.55:
+                ll.append([rng.randint(0, max(0, mw - 1)) for _ in range(rng.choice([1, 1, 2]))])
+            else:
+                ll.append([rng.randint(2 * mw, 5 * mw) for _ in range(rng.choice([1, 2]))])
+        cfg["spill"] = rng.choice([mw, mw, mw + 1, 2 * mw, 1])
+        for tree in all_trees(ll):
+            r = add_run(cfg, tree, f"brackets:n={n}")
+            judge(cfg, tree, r, "all bracketings of tiny/large partitions")
+
     if tier == "thorough":
         # every merge tree over <= 5 partitions, a few size/parameter patterns each
         for n in range(1, 6):
